@@ -8,9 +8,16 @@ import driver
 d = json.load(open(sys.argv[1]))
 ctx = driver.Ctx(d['property'], 'quick')
 try:
-    rr = ctx.replay(d['files'], d['pkgdir'], driver.MOD + '/' + d['pkgdir'], d['entry'], d['inputs'], params=d.get('params'))
+    files = dict(d['files'])
+    for k, content in (d.get('inline_files') or {}).items():
+        p = os.path.join(ctx.out, 'inline_' + os.path.basename(k))
+        open(p, 'w').write(content)
+        files[k] = p
+    rr = ctx.replay(files, d['pkgdir'], driver.MOD + '/' + d['pkgdir'], d['entry'], d['inputs'], params=d.get('params'),
+                    testdir=d.get('testdir'))
     print(json.dumps(rr, indent=1)); print(ctx.notes)
-    bad = rr and (d['label'] in rr.get('failed', []) or (d['label'].startswith('panic:') and rr.get('panic')))
+    label = d['label']
+    bad = rr and (label in rr.get('failed', []) or label in rr.get('regions', []) or (label.startswith('panic:') and rr.get('panic')))
     print('REPRODUCED' if bad else 'not reproduced')
     sys.exit(1 if bad else 0)
 finally:
